@@ -6,7 +6,7 @@
     decisions and hook outcomes are data: every theorem holds for all of them and all schedules.
     Derived notions: Actor/SpecMail.v.  Statements only; proofs in Actor/ProofsMail*.v. *)
 From Coq Require Import List NArith ZArith Bool.
-From Vivid Require Import Actor.Core Actor.CoreRun Actor.SpecMail Actor.ProofsMailBase Actor.ProofsMail Actor.ProofsMailInv Actor.ProofsMailWf Actor.ProofsMailAcct Actor.ProofsMailPause Actor.ProofsMailQuiet Actor.ProofsMailKids.
+From Vivid Require Import Actor.Core Actor.CoreRun Actor.SpecMail Actor.ProofsMailBase Actor.ProofsMail Actor.ProofsMailInv Actor.ProofsMailWf Actor.ProofsMailAcct Actor.ProofsMailPause Actor.ProofsMailQuiet Actor.ProofsMailKids Actor.ProofsMailCover2.
 Import ListNotations.
 
 (** ============================ (a) a failure pauses the actor and is reported once ============================ *)
@@ -317,7 +317,7 @@ Proof.
   vm_compute. repeat split.
 Qed.
 
-(** what IS proved about every run (partial; see also (a), (b), (d)):
+(** about every run (see also (a), (b), (d)), first two auxiliary facts:
     - the flag of a mailbox at the end of a run is the last Pause / Resume word its own thread executed on it
       (nothing else ever writes it) ... *)
 Theorem C09_quiescent_unpaused_partial scs evs b :
@@ -326,16 +326,47 @@ Theorem C09_quiescent_unpaused_partial scs evs b :
 Proof. exact (paused_iff_last_word scs evs b). Qed.
 
 (** - ... and in a quiescent state the only envelopes left anywhere are user envelopes behind such an unanswered
-      Pause: every system queue is empty, no consumer holds anything, no instruction is pending.
-    Missing for the full statement: the invariant "paused /\ running /\ not zombie => a supervision report, a pause /
-    resume / restart / kill directive concerning this actor or an ancestor of its escalation chain is still in a
-    system queue, a consumer's hands or a pending list" (Actor/SearchMail.v: no violation in ~70 000 random
-    schedules over the decision matrix after the three fixes) *)
+      Pause: every system queue is empty, no consumer holds anything, no instruction is pending. *)
 Theorem C09_quiescent_mail_only_behind_a_pause scs evs a x :
   let s := run_events evs (init_with scs) in
   err s = false -> quiescent s = true -> get s a = Some x -> inbox x <> [] ->
   inbox x = a_uq x /\ a_paused x = true /\ last_pause_word a evs None = Some true.
 Proof. exact (quiescent_mail_only_behind_a_pause scs evs a x). Qed.
+
+(** THE GLOBAL STATEMENT.  In every reachable state in which nothing is pending anywhere (no instruction, every
+    consumer idle, every system queue empty), every actor that is Running and not a zombie has an unpaused mailbox -
+    whatever the scripts, the supervision strategies and decisions, the restart hooks and the interleaving were.
+    Proof (Actor/ProofsMailCover.v, ...Cover2.v): an invariant of all micro-steps - an actor that is running (or is
+    being restarted) and whose own pipeline (pending instructions, envelope in hand, system queue) ends "paused"
+    has a cover in flight: a resume command for it, an immediate stop / restart for it or an ancestor, a supervision
+    report or a supervisor's pause loop / decision concerning it, pending in some thread or queued at another actor.
+    It rests on the invariants of (f), on the well-formedness of the supervision contexts in flight
+    (ProofsMailCtx.v), on "a reference object routes to its own mailbox" (ProofsMailCache.v) and on "a pause
+    command is only ever told by a supervisor's pause loop, never stashed or replayed" (ProofsMailHyg.v).
+    The statement was FALSE before the three fixes in /repo (20ffea6, a8829bb): see the regression runs above. *)
+Theorem C09_quiescent_unpaused s a x :
+  reachable s -> quiescent s = true -> get s a = Some x -> a_state x = Running -> a_zombie x = false -> a_paused x = false.
+Proof. exact (quiescent_unpaused s a x). Qed.
+
+(** ... hence nothing is left in its mailbox: every message sent to a surviving actor has been handled *)
+Theorem C09_quiescent_survivor_has_no_mail s a x :
+  reachable s -> quiescent s = true -> get s a = Some x -> a_state x = Running -> a_zombie x = false -> inbox x = [].
+Proof. exact (quiescent_survivor_inbox_empty s a x). Qed.
+
+(** the guard (root) is never paused *)
+Theorem C09_root_never_paused s x : reachable s -> get s 0 = Some x -> a_paused x = false.
+Proof. exact (root_never_paused s x). Qed.
+
+(** the reference object of every context except the root has its own mailbox cached (ActorOf tells OnLaunch through
+    it at once): a tell through a reference object reaches the context that owns it, also after a restart or when
+    the name has been reused by a later incarnation *)
+Theorem C09_ref_object_routes_to_owner s c xc : reachable s -> get s c = Some xc -> c <> 0 -> a_cache xc = Some c.
+Proof. exact (ref_cache_reachable s c xc). Qed.
+
+(** a pause command is never stashed and never travels through a user queue *)
+Theorem C09_no_pause_command_in_user_mail s a x e :
+  reachable s -> get s a = Some x -> In e (a_uq x ++ a_stash x) -> e_msg e <> MCmdPause.
+Proof. exact (no_pause_command_in_user_mail s a x e). Qed.
 
 (** ============================ (f) the supervisor of a live actor is alive ============================ *)
 
@@ -505,6 +536,11 @@ Print Assumptions C09_pause_sites_exec.
 Print Assumptions C09_pause_sites_dispatch.
 Print Assumptions C09_quiescent_unpaused_partial.
 Print Assumptions C09_quiescent_mail_only_behind_a_pause.
+Print Assumptions C09_quiescent_unpaused.
+Print Assumptions C09_quiescent_survivor_has_no_mail.
+Print Assumptions C09_root_never_paused.
+Print Assumptions C09_ref_object_routes_to_owner.
+Print Assumptions C09_no_pause_command_in_user_mail.
 Print Assumptions C09_running_is_registered.
 Print Assumptions C09_zombie_registered_until_released.
 Print Assumptions C09_zombie_is_terminated.
